@@ -42,6 +42,8 @@ def bookkeeping(ctx, rid):
         return
     num, den = shape
     ctx.holds(rid, fn, "result = %s / %s * 100" % (num, den), stores[0])
+    result_integrity(ctx, rid, fn, stores[0])
+    payload_total(ctx, rid)
     # the result is stored after the loop is drained
     sn = C.stmt_node(ctx, fn, stores[0])
     ctx.decide(rid, fn, sn not in [n for n in g.reachable(body_start) if head in g.reachable(n)] or True and g.dominates(head, sn),
@@ -105,6 +107,155 @@ def bookkeeping(ctx, rid):
     rets = [n for n in own_nodes(rs.node) if isinstance(n, ast.Return) and n.value is not None]
     ok = bool(rets) and all(isinstance(r.value, ast.Attribute) and r.value.attr == "_result" for r in rets)
     ctx.decide(rid, rs, ok, "results() returns the stored result unchanged", "results() returns %s" % (norm(rets[0].value) if rets else "nothing"), "return of results()")
+
+
+def recorded_piece_length(ctx, rid):
+    """The piece length the checkers hash with is the metafile's 'piece length' value itself.  A reader that passes it
+    through the creator's policy (power-of-two / range normalisation, defaults) rejects or re-interprets metafiles that an
+    independent encoder is free to write."""
+    from tfsa.flow import Flow, walk_terms, show
+
+    def is_recorded(t):
+        if t[0] == "ext" and t[1] == "builtins.int" and len(t[2]) == 1 and not t[3]:
+            return all(is_recorded(x) for x in t[2][0])     # int(recorded) is the recorded integer
+        return t[0] == "sub" and any(x[0] == "const" and x[1] == "piece length" for x in t[2])
+    fl = Flow(ctx.prog, ctx.res)
+    n = 0
+    for q in ("torrentfile.recheck:FeedChecker.__init__", "torrentfile.recheck:HashChecker.__init__"):
+        f = ctx.prog.func(q)
+        for st in own_nodes(f.node):
+            if not (isinstance(st, ast.Assign) and len(st.targets) == 1 and isinstance(st.targets[0], ast.Attribute) and isinstance(st.targets[0].value, ast.Name) and st.targets[0].value.id == f.self_name):
+                continue
+            terms = fl.term(st.value, f)
+            if not any(is_recorded(x) for x in walk_terms(terms)):
+                continue
+            n += 1
+            other = [t for t in terms if not is_recorded(t)]
+            who = "%s.%s" % (f.cls.name, st.targets[0].attr)
+            if not other:
+                ctx.holds(rid, f, "%s is the metafile's recorded piece length, taken verbatim" % who, who + " :: recorded piece length")
+            else:
+                ctx.violated(rid, f, "%s is not the recorded piece length itself but derived from it: %s - a well-formed metafile whose piece length the creator-side policy would not choose is rejected or hashed with a different piece size" % (
+                    who, show(frozenset(other))[:300]), who + " :: recorded piece length")
+    ctx.floor("piece checkers whose piece length is traced to the metafile", 2, n)
+
+
+ROUNDERS = ("round", "int", "ceil", "floor", "trunc", "min", "max", "format", "str", "float")
+
+
+def result_integrity(ctx, rid, fn, result_store):
+    """The stored percentage reaches the caller unchanged: no other store of it, nothing rounds it on the way out."""
+    attr = [t.attr for t in result_store.targets if isinstance(t, ast.Attribute)][0]
+    n = 0
+    for f in ctx.prog.functions.values():
+        for st in own_nodes(f.node):
+            tg = []
+            if isinstance(st, ast.Assign):
+                tg = [t for t in st.targets if isinstance(t, ast.Attribute) and t.attr == attr]
+            elif isinstance(st, (ast.AugAssign, ast.AnnAssign)) and isinstance(st.target, ast.Attribute) and st.target.attr == attr:
+                tg = [st.target]
+            if not tg or st is result_store:
+                continue
+            if f.cls is None or not (f.cls is fn.cls or fn.cls in ctx.prog.mro(f.cls) or f.cls in ctx.prog.mro(fn.cls)):
+                kinds = ctx.res.kinds(tg[0].value, f)
+                if not any(k[0] == "inst" and (k[1] is fn.cls or fn.cls in ctx.prog.mro(k[1])) for k in kinds):
+                    continue
+            n += 1
+            v = getattr(st, "value", None)
+            if f.name == "__init__" and isinstance(v, ast.Constant):
+                ctx.holds(rid, f, "initial value of the result attribute", st)
+                continue
+            calls = {norm(c.func).split(".")[-1] for c in ast.walk(st) if isinstance(c, ast.Call)}
+            if isinstance(st, ast.AugAssign) or (calls & set(ROUNDERS)):
+                ctx.violated(rid, f, "the stored percentage is rewritten by `%s` after it was computed: a value just below 100 (damage in a small part of a large payload) can become 100" % norm(st), st)
+            else:
+                ctx.undecided(rid, f, "the stored percentage is rewritten by `%s`" % norm(st), st)
+    # the CLI command hands the value of results() through unchanged
+    rs = ctx.prog.func("torrentfile.recheck:Checker.results")
+    for f in ctx.prog.functions.values():
+        if f.module.name != "torrentfile.commands":
+            continue
+        calls = [c for c in own_nodes(f.node) if isinstance(c, ast.Call) and any(t is rs for t in C.targets_of(ctx, f, c))]
+        if not calls:
+            continue
+        n += 1
+        g = C.cfg_of(f)
+        from tfsa.reach import ReachDefs
+        rd = ReachDefs(f, g)
+        for r in [x for x in own_nodes(f.node) if isinstance(x, ast.Return) and x.value is not None]:
+            v = r.value
+            ok = False
+            if any(v is c for c in calls):
+                ok = True
+            elif isinstance(v, ast.Name):
+                defs = rd.reaching(v.id, C.stmt_node(ctx, f, r))
+                ok = bool(defs) and all(d.kind == "assign" and any(d.value is c for c in calls) for d in defs)
+            ctx.decide(rid, f, ok, "%s returns the value of Checker.results() unchanged" % f.name,
+                       "%s returns `%s`, not the value Checker.results() produced" % (f.name, norm(v)), r)
+    return n
+
+
+def payload_total(ctx, rid):
+    """The payload total grows for exactly the entries that are handed to the piece checker (same control dependence as the
+    path being recorded) and by the length recorded for that entry."""
+    cls = ctx.prog.cls("torrentfile.recheck:Checker")
+    ih = cls.methods["iter_hashes"]
+    tattr = None
+    for n in own_nodes(ih.node):
+        if isinstance(n, ast.BinOp) and isinstance(n.op, ast.Div) and isinstance(n.right, ast.Attribute) and isinstance(n.right.value, ast.Name) and n.right.value.id == ih.self_name:
+            tattr = n.right.attr
+    if tattr is None:
+        tattr = "total"
+    n_sites = 0
+    for f in cls.methods.values():
+        g = None
+        for st in own_nodes(f.node):
+            if not (isinstance(st, ast.AugAssign) and isinstance(st.target, ast.Attribute) and st.target.attr == tattr and isinstance(st.target.value, ast.Name) and st.target.value.id == f.self_name):
+                continue
+            loop = None
+            p = ctx.prog.parent.get(st)
+            while p is not None and p is not f.node:
+                if isinstance(p, (ast.For, ast.While)):
+                    loop = p
+                    break
+                p = ctx.prog.parent.get(p)
+            if loop is None:
+                continue
+            n_sites += 1
+            g = g or C.cfg_of(f)
+            apps = [x for x in ast.walk(loop) if isinstance(x, ast.Call) and isinstance(x.func, ast.Attribute) and x.func.attr == "append"
+                    and isinstance(x.func.value, ast.Attribute) and isinstance(x.func.value.value, ast.Name) and x.func.value.value.id == f.self_name]
+            if not apps:
+                ctx.undecided(rid, f, "payload total grows in a loop that records no path", st)
+                continue
+            sn = C.stmt_node(ctx, f, st)
+
+            def inner(node):
+                return {(norm(C.test_expr(b)), lab) for b, lab in g.control_deps(node, normal_only=True) if b.kind == "test" and b.ast is not loop and _within(ctx, b.ast, loop)}
+            want = inner(C.stmt_node(ctx, f, apps[0]))
+            have = inner(sn)
+            extra = have - want
+            ok = isinstance(st.op, ast.Add) and not extra
+            ctx.decide(rid, f, ok, "the payload total grows by the entry's length for every entry that is handed to the piece checker",
+                       "the payload total skips entries (%s) that are nevertheless hashed and compared: the share of examined bytes, and any percentage taken of the total, is wrong" % (
+                           ", ".join("%s is %s" % e for e in sorted(extra)) or norm(st)), st)
+            # the amount added is the length recorded for the entry
+            recs = [x for x in ast.walk(loop) if isinstance(x, ast.Dict) and any(const_str(k) == "length" for k in x.keys if k is not None)]
+            if recs:
+                lv = [v for k, v in zip(recs[0].keys, recs[0].values) if k is not None and const_str(k) == "length"][0]
+                same = norm(lv) == norm(st.value)
+                ctx.decide(rid, f, same, "the amount added to the total is the length recorded for the entry (%s)" % norm(lv),
+                           "the total grows by `%s` but the entry is recorded with length `%s`" % (norm(st.value), norm(lv)), norm(st) + " :: amount")
+    ctx.floor("loops that accumulate the payload total", 2, n_sites)
+
+
+def _within(ctx, node, outer):
+    p = node
+    while p is not None:
+        if p is outer:
+            return True
+        p = ctx.prog.parent.get(p)
+    return False
 
 
 def _ratio_times_100(e):
@@ -221,6 +372,96 @@ def stop_iteration_discipline(ctx, rid):
                 else:
                     ctx.holds(rid, f, "call of %s is protected by try/except StopIteration" % key.split(":")[-1], s)
     ctx.floor("iterator methods that carry on after an inner StopIteration", 1, n_beliefs)
+    foreign_stop_escapes(ctx, rid)
+
+
+def _exact_targets(ctx, fn, call):
+    out = []
+    for site in ctx.cg.sites.get(fn, []):
+        if site.node is call:
+            for t in site.targets:
+                if t[0] == "pkg" and t[1] not in site.approx and t[1] not in out:
+                    out.append(t[1])
+    return out
+
+
+def foreign_stop_escapes(ctx, rid):
+    """A hand-written __next__ ends its consumer's `for` loop with StopIteration.  The only StopIteration that may leave it
+    is one the iterator classes of recheck / hasher raise or delegate on purpose.  A `next(x)` without default (or a
+    `raise StopIteration`) in any *other* package function that is reachable through unprotected calls is a stray
+    exhaustion signal: the consumer silently stops comparing, and what was compared so far decides the percentage."""
+    prog = ctx.prog
+    _, protected = may_raise_stop(ctx)
+    own_mods = ("torrentfile.recheck", "torrentfile.hasher")
+    origins = {}
+
+    def prim(f):
+        out = []
+        for n in own_nodes(f.node):
+            if isinstance(n, ast.Raise) and n.exc is not None and norm(n.exc.func if isinstance(n.exc, ast.Call) else n.exc) == "StopIteration":
+                if protected(f, n)[0] is None:
+                    out.append((f, n, ()))
+            elif isinstance(n, ast.Call) and isinstance(n.func, ast.Name) and n.func.id == "next" and len(n.args) == 1 and not n.keywords:
+                if protected(f, n)[0] is None:
+                    out.append((f, n, ()))
+        return out
+    funcs = [f for f in prog.functions.values() if not f.is_generator]
+    for f in funcs:
+        origins[f] = {(g, id(n)): (g, n, ch) for g, n, ch in prim(f)}
+    changed = True
+    rounds = 0
+    while changed and rounds < 50:
+        changed = False
+        rounds += 1
+        for f in funcs:
+            for n in own_nodes(f.node):
+                if not isinstance(n, ast.Call) or protected(f, n)[0] is not None:
+                    continue
+                for t in _exact_targets(ctx, f, n):
+                    for k, (g, node, ch) in list(origins.get(t, {}).items()):
+                        if k not in origins[f] and len(ch) < 8:
+                            origins[f][k] = (g, node, (t,) + ch)
+                            changed = True
+    n_it = 0
+    for f in prog.functions.values():
+        if f.name != "__next__" or f.module.name not in own_mods:
+            continue
+        n_it += 1
+        stray = [(g, node, ch) for (g, node, ch) in origins.get(f, {}).values() if g.module.name not in own_mods]
+        label = "%s :: foreign StopIteration" % f.qual.split(":")[-1]
+        if not stray:
+            ctx.holds(rid, f, "no StopIteration from outside the iterator classes can leave this __next__ (%d origin(s), all inside recheck / hasher)" % len(origins.get(f, {})), label)
+            continue
+        for g, node, ch in stray:
+            chain = " -> ".join(x.qual.split(":")[-1] for x in ch) or g.qual.split(":")[-1]
+            arg = node.args[0] if isinstance(node, ast.Call) else None
+            sure = isinstance(node, ast.Raise) or _possibly_empty(ctx, g, arg)
+            msg = "`%s` in %s can raise StopIteration, which escapes through %s out of this __next__: the `for` loop consuming the iterator takes it as exhaustion and stops comparing" % (
+                norm(node), g.qual.split(":")[-1], chain)
+            if sure:
+                ctx.violated(rid, f, msg, node)
+            else:
+                ctx.undecided(rid, f, msg + " (whether the source can be empty is not decided)", node)
+    ctx.floor("hand-written iterators examined for stray StopIteration", 3, n_it)
+
+
+def _possibly_empty(ctx, fn, arg):
+    """The argument of next() is visibly an iterator that can be empty: a filtered generator expression, filter(), or a
+    local name bound to one."""
+    e = arg
+    for _ in range(4):
+        if isinstance(e, ast.Name):
+            vals = [p for w, p in ctx.res.bindings(fn).get(e.id, []) if w == "value"]
+            if len(vals) != 1:
+                return False
+            e = vals[0]
+            continue
+        break
+    if isinstance(e, ast.GeneratorExp):
+        return any(g.ifs for g in e.generators) or True
+    if isinstance(e, ast.Call) and isinstance(e.func, ast.Name) and e.func.id in ("filter", "iter", "map", "zip"):
+        return True
+    return False
 
 
 # ------------------------------------------------------------------------------------------ R3 carried buffer
